@@ -53,13 +53,13 @@ CHECKS = {
     "C15": dict(text="the single-quote wrapper `Shell` executed from MIR (core::fmt interpreted) on every valid UTF-8 string up to the bound: the output lexes under POSIX rules as exactly one word with the input as value; render_zsh/bash/fish/simple executed from MIR on candidate and completer lists whose user-originated strings are tracked atoms: no atom reaches a zsh/bash script unquoted, every line is a complete directive, every candidate / requested completer appears exactly once",
                 note="bounds: strings <=6 bytes quick / <=8 thorough; 0-2 candidates, 0-1 completers plus five pairs incl. same-kind pairs with different masks (thorough: all pairs); reference lexers in props/C15.py; sourcing in a real shell not attempted; three defects found and fixed (7d9d288, 7f18a65, 640d5de)",
                 tech=MIRSYM + " over symbolic bytes / tracked atoms", ref="DESIGN.md 4/C15"),
-    "C16": dict(text="kernels executed from MIR over symbolic bytes: roff escape() on fragment sequences (exact provenance: inserted bytes concrete, user bytes symbolic) - no user byte starts a line as a control character, every user backslash is escaped; html change_style for all 64 style pairs; Doc::render_html (with the Splitter) on 7 block templates - tags balanced, no user `<`/`>` reaches the output; extract_sections visits every command level exactly once",
+    "C16": dict(text="kernels executed from MIR over symbolic bytes: roff escape() on fragment sequences (exact provenance: inserted bytes concrete, user bytes symbolic) - no user byte starts a line as a control character, every user backslash is escaped; the Roff builder API (control / plaintext / text ...) + render on symbolic user strings incl. the double quote (the escaping mode is chosen by the executed code); html change_style for all 64 style pairs; Doc::render_html (with the Splitter) on 7 block templates - tags balanced, no user `<`/`>` reaches the output; extract_sections visits every command level exactly once",
                 note="bounds: <=3 fragments x <=2 user bytes quick (4 x 3 thorough); html text <=4 bytes (5 thorough); section traversal (extract_sections) on 10 command trees incl. duplicate command names and a group_help group; whole documents: markdown / html / manpage of 14 corpus grammars rendered from MIR, byte-equal to the native build, one section per command level naming its visible items and no hidden one; documents of solver-chosen definitions (C12 generator with nested command levels, depth <=2); markdown cosmetics are not judged; one defect found and fixed (roff control arguments)",
                 tech=MIRSYM + " over symbolic bytes, provenance obligations", ref="DESIGN.md 4/C16"),
     "C17": dict(text="the derive macro's expansion (part of the harness crate's MIR) and the documented hand written combinator equivalent are both executed from MIR: their Meta trees and Info are structurally equal (what help is rendered from), and on every symbolic argv within the bound run_subparser of both gives equal class, value and failure kind (one joint path, Z3)",
                 note="fixed corpus of 7 derive/manual pairs (incl. unusual identifiers: consecutive / leading underscores, digits, uppercase single letters, acronym variant names) covering the derive rules of the property (definitions cannot be symbolic through a proc macro); bounds <=3 argv words quick / <=4 thorough; rendering cut",
                 tech=MIRSYM + ", relational query between two builders", ref="DESIGN.md 4/C17"),
-    "C18": dict(text="std::env::var_os replaced by symbolic functions; differential against the reference semantics (line, then variable, then default/failure) for every argv shape and every environment state; reading an undeclared variable is a violation",
+    "C18": dict(text="std::env::var_os replaced by symbolic functions; differential against the reference semantics (line, then variable, then default/failure) for every argv shape and every environment state; reading an undeclared variable is a violation; std::env::var is modelled too (a non-UTF-8 value is a kind of invalid value, replayed with byte 0xff)",
                 note="bounds <=2 argv words quick / <=3 thorough on the env-backed grammar; one known finding (see known_findings.json)",
                 tech=MIRSYM + ", differential oracle with symbolic environment", ref="DESIGN.md 4/C18"),
     "C19": dict(text="adjacent groups (multi-value option, option-struct before/after a switch, optional and repeated) and adjacent subcommand chains: Ok => every group value comes from one contiguous block starting at a group-start item, in command line order (value provenance); clean lines => Ok with exactly the block values; a group-start item without a complete block => stderr",
